@@ -173,6 +173,16 @@ func Observed() []string { return observed }
 // Symbolic reports whether the harness runs under the engine.
 func Symbolic() bool { return false }
 
+// Unit is the time unit of timing harnesses: one minute on the engine's
+// virtual clock, 100ms in a native replay (so that replays finish in seconds).
+// Only durations the harness controls may be expressed in it.
+func Unit() time.Duration {
+	if Symbolic() {
+		return time.Minute
+	}
+	return 100 * time.Millisecond
+}
+
 // ---------- derived helpers (plain Go, executed both ways) ----------
 
 func I64(name string) int64 { return int64(U64(name)) }
